@@ -131,6 +131,16 @@ func (x *Exec) binop(st *State, op token.Token, a, b Value, resT types.Type, pos
 		default:
 			unsupported("int binop %v", op)
 		}
+		// name composite results: keeps VCs small and gives E-matching a handle
+		if _, lit := isIntLit(r); !lit && len(r) > 40 {
+			c := x.d.fresh("t", sInt)
+			st.assume(mkEq(c, r))
+			if st.wf != nil {
+				st.wf[c] = true
+			}
+			st.assume(inRange(c, bits, signed))
+			r = c
+		}
 		return Value{K: KInt, T: resT, S: r}
 	case KReal:
 		var f string
